@@ -101,11 +101,14 @@ SCHEMA = {
     "Leaf": {"bases": [], "task": False, "lw": False, "params": _LEAF},
     "LeafB": {"bases": ["Leaf"], "task": False, "lw": False, "params": {**_LEAF, "x": P("int", default=0)}},
     "Other": {"bases": [], "task": False, "lw": False, "params": {"i": P("int"), "s": P("str", default="s0")}},
+    "Named": {"bases": [], "task": False, "lw": False, "params": {"v": P("int")}, "xpmid": "xvmodels.custom.named"},
+    "NamedChild": {"bases": ["Named"], "task": False, "lw": False, "params": {"v": P("int"), "w": P("int", default=0)}},
     "Node": {
         "bases": [],
         "task": False,
         "lw": False,
         "params": {
+            "named": P(opt(cfg("Named"))),
             "child": P(cfg("Leaf")),
             "opt": P(opt(cfg("Leaf"))),
             "items": P(lst(cfg("Leaf")), default=[]),
@@ -173,8 +176,9 @@ SCHEMA = {
 
 
 def type_id(cls):
-    """Documented default: __module__.__qualname__, lower-cased."""
-    return f"{MODULE}.{cls}".lower()
+    """Documented default: __module__.__qualname__, lower-cased; a string __xpmid__ declared by the class itself wins
+    (a subclass without its own __xpmid__ falls back to the default)."""
+    return SCHEMA[cls].get("xpmid") or f"{MODULE}.{cls}".lower()
 
 
 def is_subclass(cls, base):
